@@ -124,6 +124,15 @@ class ClassInfo:
         return any(d.split('(')[0] in ('frozen', 'define', 'attrs.frozen', 'attrs.define', 'attr.s') for d in self.decorators)
 
     @property
+    def is_record(self) -> bool:
+        """instances are built from their declared fields: attrs classes, typing.NamedTuple subclasses, dataclasses"""
+        if self.is_attrs:
+            return True
+        if any(b.split('.')[-1] == 'NamedTuple' for b in self.external_bases):
+            return True
+        return any(d.split('(')[0].split('.')[-1] == 'dataclass' for d in self.decorators)
+
+    @property
     def is_enum(self) -> bool:
         for c in self.mro():
             if any(b in ('Enum', 'Flag', 'IntEnum', 'IntFlag', 'enum.Enum', 'enum.Flag') for b in c.external_bases):
@@ -376,8 +385,8 @@ class Model:
                 for name, value in ci.class_assigns.items():
                     if not name.startswith('_'):
                         ci.enum_members[name] = value
-            if not ci.is_attrs and not any(c.is_attrs for c in ci.mro()):
-                ci.own_fields = []  # plain classes have no attrs fields
+            if not ci.is_record and not any(c.is_record for c in ci.mro()):
+                ci.own_fields = []  # plain classes have no declared fields
 
     # ------------------------------------------------------------ resolution
     def resolve_name(self, mod: ModuleInfo, name: str, _depth: int = 0):
